@@ -21,6 +21,7 @@ import (
 	"github.com/oxia-db/oxia/server/wal"
 
 	"verif/harness/internal/hx"
+	"verif/harness/internal/kvsafe"
 )
 
 const (
@@ -82,7 +83,7 @@ func newH(o *hx.Out) *H {
 	hx.Must(err)
 	h := &H{o: o, dir: dir, streams: map[int]*streamH{}, terms: map[int64]*termInfo{}, viol: map[string]string{},
 		ackedIn: map[int64]int64{}, reported: map[int64][2]int64{}, hasReported: map[int64]bool{}, writeRes: map[int]bool{}, refused: map[int]string{}, fencedTerm: -1, adv: 0}
-	h.kvf, err = kv.NewPebbleKVFactory(&kv.FactoryOptions{DataDir: dir + "/db", CacheSizeMB: 1})
+	h.kvf, err = kvsafe.New(&kv.FactoryOptions{DataDir: dir + "/db", CacheSizeMB: 1})
 	hx.Must(err)
 	h.realWf = wal.NewWalFactory(&wal.FactoryOptions{BaseWalDir: dir + "/wal", SegmentSize: 256 * 1024, Retention: time.Hour, SyncData: true})
 	h.wf = &gateFactory{inner: h.realWf, ev: h}
